@@ -366,7 +366,7 @@ def observe_all(ro):
 
 # concrete neighbours for the one symbolic paragraph of a cell
 FIXED_PARAS = {'a': 'plain text', 'b': '(note)', 'w': '   ', 'h': '(half', 'u': ' \u00e9t\u00e9 ', 'g': '<gfx>',
-               'r': 'right)'}
+               'r': 'right)', 'H': '<half', 'R': 'right>', 'e': 'AT&amp;T &lt;VT&gt; &para 4 &#38; \U0001F600', 'E': '&lt;VT&gt;'}
 
 
 def spec_script(texts):
